@@ -10,15 +10,16 @@ Theorem s2rect_expanded_sound_under_H : H_S1EXPAND -> forall r mg lat x,
   valid_s2rect r -> vlat lat -> inrange x ->
   nonnan (s2_LatLng_Lat mg) -> 0 <= rank (s2_LatLng_Lat mg) ->
   nonnan (s2_LatLng_Lng mg) -> 0 <= rank (s2_LatLng_Lng mg) ->
+  exp_safe (s2_Rect_Lng r) (s2_LatLng_Lng mg) ->
   wf1 (r1_Interval_Expanded (s2_Rect_Lat r) (s2_LatLng_Lat mg)) ->
   mem_s2rect r lat x -> mem_s2rect (s2_Rect_expanded r mg) lat x.
 Proof.
-  intros H r mg lat x V [Nlat Rlat] Hx Nm1 Hm1 Nm2 Hm2 W' [M1 M2].
+  intros H r mg lat x V [Nlat Rlat] Hx Nm1 Hm1 Nm2 Hm2 Sf W' [M1 M2].
   pose proof (valid_lat_wf r V) as W. destruct V as [_ [_ [Vl _]]].
   unfold s2_Rect_expanded, s1_Angle_Radians.
   pose proof (r1_expanded_sound _ _ _ W Nm1 Hm1 Nlat W' M1) as E1.
-  pose proof (s1_expanded_sound_under_H H _ _ x Vl Nm2 Hm2 Hx M2) as E2.
-  pose proof (s1_expanded_valid_under_H H _ _ Vl Nm2 Hm2) as V2.
+  pose proof (s1_expanded_sound_under_H H _ _ x Vl Nm2 Hm2 Sf Hx M2) as E2.
+  pose proof (s1_expanded_valid_under_H H _ _ Vl Nm2 Hm2 Sf) as V2.
   rewrite (r1_mem_nonempty _ lat W' Nlat E1), (s1_mem_nonempty _ x V2 Hx E2). cbn [orb].
   split; [|exact E2]. cbn [s2_Rect_Lat].
   assert (Wf : wf1 s2_validRectLatRange) by (split; reflexivity).
